@@ -116,6 +116,20 @@ def block_raw_values(inits, size, sd, corr):
     return list(A[np.tril_indices_from(A)])
 
 
+def block_update_args(rec, newcov, size, sd, corr, newfix):
+    """what the Lean `updBlock` takes: Python's spellings of the written values, the new and the old record-scale
+    values (same float operations as OmegaRecord.update: to_record_scale of the new parameters and of self.parse())"""
+    written = []
+    for node in rec.root.subtrees("omega"):
+        n = int(str(node.subtree("n").leaf("INT"))) if node.find("n") else 1
+        written += [float(str(node.subtree("init")))] * n
+    ws = [oparam_wire(v, False)[1] for v in written]
+    news = [oparam_wire(v, newfix) for v in block_raw_values(newcov, size, sd, corr)]
+    old_inits = rec.parse()[0][1]
+    olds = [val_wire(float(v)) for v in block_raw_values(old_inits, size, sd, corr)] if len(old_inits) == len(newcov) else []
+    return ws, news, olds
+
+
 def oparam_wire(raw, fix):
     raw = float(raw)
     s = str(int(raw)) if raw.is_integer() else str(raw)
